@@ -403,7 +403,7 @@ def run_session(exe, session, per_search_timeout=60.0, env=None):
     results = []
     try:
         eng.send("uci")
-        _, ok = eng.wait_for("uciok", 20)
+        _, ok = eng.wait_for("uciok", 60)
         if not ok:
             return [dict(lines=[], status="no-uciok")]
         for step in session["steps"]:
